@@ -11,6 +11,9 @@ fn main() {
     if std::env::var("VERIF_LOUD_PANICS").is_err() {
         std::panic::set_hook(Box::new(|_| {}));
     }
+    if args.len() >= 3 && args[1] == "c18-child" {
+        std::process::exit(vh::props::conc::child_main(&args[2]));
+    }
     if args.iter().any(|a| a == "selftest") {
         let deep = args.iter().any(|a| a == "--deep");
         match vh::refmodels::selftest(deep) {
